@@ -391,7 +391,7 @@ func TestC04(t *testing.T) {
 	if t.Failed() {
 		return
 	}
-	// directed table 1: r in {1, 2} with hand-solvable blocks: two blocks whose sum makes h = p-1..p+4
+	// directed table 1: r = 1 with hand-solvable blocks: two blocks whose sum makes h = p-3..p+4
 	n := 0
 	for d := int64(-3); d <= 4; d++ {
 		for _, sHex := range [][]byte{make([]byte, 16), bytes.Repeat([]byte{0xff}, 16), refaead.ToLE(bi(5), 16), refaead.ToLE(new(big.Int).Sub(c04Two128, bi(5)), 16)} {
@@ -419,6 +419,50 @@ func TestC04(t *testing.T) {
 		}
 	}
 	c.Exhaustive("r=1, h=p-3..p+4 by construction x 4 values of s x 4 chunkings", n)
+	{
+		// directed table 1b: every r class x s class x every sequence of up to k extreme-value blocks (+ tails)
+		n, idx := 0, 0
+		maxBlocks := ev.Scale(3, 5)
+		blockVals := [][]byte{make([]byte, 16), bytes.Repeat([]byte{0xff}, 16), append([]byte{0xfb}, bytes.Repeat([]byte{0xff}, 15)...)}
+		rVals := [][]byte{refaead.ToLE(bi(0), 16), refaead.ToLE(bi(1), 16), refaead.ToLE(bi(2), 16), refaead.ToLE(bi(5), 16), c04RMax,
+			append(clone(c04RMax[:8]), make([]byte, 8)...), append(make([]byte, 8), c04RMax[8:]...), bytes.Repeat([]byte{0xff}, 16)}
+		sVals := [][]byte{make([]byte, 16), bytes.Repeat([]byte{0xff}, 16), refaead.ToLE(new(big.Int).Sub(c04Two128, bi(5)), 16), pat(11, 16)}
+		tails := [][]byte{nil, {0xff}, bytes.Repeat([]byte{0xff}, 15), bytes.Repeat([]byte{0xff}, 8)}
+		var seqs [][]byte
+		var build func(prefix []byte, depth int)
+		build = func(prefix []byte, depth int) {
+			seqs = append(seqs, prefix)
+			if depth == maxBlocks {
+				return
+			}
+			for _, b := range blockVals {
+				build(append(clone(prefix), b...), depth+1)
+			}
+		}
+		build(nil, 0)
+		for _, rv := range rVals {
+			for _, sv := range sVals {
+				key := append(clone(rv), sv...)
+				for _, sq := range seqs {
+					for ti, tl := range tails {
+						idx++
+						if !ev.Mine(idx) {
+							continue
+						}
+						msg := append(clone(sq), tl...)
+						ge, err := c04Check(key, msg, []int{max(0, len(msg)/16*16-16*(ti%2)), 16}, nil)
+						if err != nil {
+							c.Violation(err.Error(), "")
+							t.Fatalf("VF-VIOLATION: property=C04 extreme-value table: %v", err)
+						}
+						c.Case(len(msg) >= 32 || ge, fmt.Sprintf("table1b|%x|%x|%d|%d|%v", rv, sv[:2], len(sq), ti, ge), "directed:extreme-block-sequences", fmt.Sprintf("directed:h>=p=%v", ge))
+						n++
+					}
+				}
+			}
+		}
+		c.Exhaustive(fmt.Sprintf("8 values of r x 4 values of s x every sequence of 0..%d blocks from {00.., ff.., fbff..} x 4 tails (cases, all shards together)", maxBlocks), idx)
+	}
 	// directed table 2: finalize on raw accumulators around p and 2p (h < 2p is the documented invariant)
 	n = 0
 	twoP := new(big.Int).Lsh(c04P, 1)
